@@ -24,7 +24,7 @@ from ..mirlib import Expr, Program, expr_str, op_const, op_place
 PANIC_CALL = re.compile(
     r"^core::panicking::(panic|panic_fmt|assert_failed|panic_explicit|unreachable_display|panic_display|panic_nounwind)|^std::rt::begin_panic|"
     r"^core::option::Option::<T>::(unwrap|expect)$|^core::result::Result::<T, E>::(unwrap|expect|unwrap_err|expect_err)$|"
-    r"ops::index::Index(Mut)?<.*>>::index(_mut)?$|^core::slice::<impl \[T\]>::(swap|split_at|copy_from_slice)$|"
+    r"ops::index::Index(Mut)?<.*>>::index(_mut)?$|ops::index::Index(Mut)?<I> for str>::index(_mut)?$|^core::slice::<impl \[T\]>::(swap|split_at|copy_from_slice)$|"
     r"^alloc::vec::Vec::<T, A>::(remove|swap_remove|insert|split_off|drain)$|^core::str::<impl str>::(split_at)$")
 ASSERT_OBLIG = {"BoundsCheck", "DivisionByZero", "RemainderByZero"}
 
